@@ -1,0 +1,7 @@
+//go:build !verif
+
+package graphql
+
+// verifStep is the no-op counterpart of the verification harness's step counter
+// (see verif_hooks_on.go, build tag `verif`).
+func verifStep(int) {}
